@@ -14,6 +14,7 @@ import (
 	"fmt"
 	"math/big"
 	"os"
+	"regexp"
 	"sort"
 	"strings"
 	"testing"
@@ -71,6 +72,10 @@ type twin struct {
 	vals    []valInfo                  // sorted by operator string (index = rank)
 	chainID *big.Int
 	signed  []signedUse
+	// other denominations that reach validators' rewards pools (native MsgDepositValidatorRewardsPool by depositor):
+	// one sorts before the bond denom, one after it
+	depositor *itutiltypes.TestAccount
+	denomIDs  map[string]int // denomination -> number in the Coq terms (bond denom = 0)
 	// the twins differ: every later comparison would only repeat the first difference, the sequence is abandoned
 	diverged bool
 	side     *Sidecar
@@ -111,19 +116,22 @@ var paths = []pathSpec{
 
 func (tw *twin) pz(name string) string { return zOf(tw.proxy[name].GetEthAddress().Bytes()) }
 
+var otherDenoms = []string{"afoo", "zbar"}
+
 func newTwin(t *testing.T) *twin {
-	tw := &twin{t: t, proxy: map[string]*itutiltypes.TestAccount{}}
+	tw := &twin{t: t, proxy: map[string]*itutiltypes.TestAccount{}, denomIDs: map[string]int{}}
 	tw.A = NewChain(t, time.Time{})
 	tw.B = NewChain(t, time.Time{})
 	tw.cpc = cpctypes.CpcStakingFixedAddress
 	for i := 0; i < 3; i++ {
 		tw.actors = append(tw.actors, tw.A.DetAccount("actor", i))
 	}
-	for i, n := range []string{"pcall", "pdeleg", "pcc", "pdd", "px", "pcd", "pstatic", "pmulti"} {
+	for i, n := range []string{"pcall", "pdeleg", "pcc", "pdd", "px", "pcd", "pstatic", "pmulti", "pmulti2"} {
 		tw.proxy[n] = tw.A.DetAccount("proxy", i)
 	}
+	tw.depositor = tw.A.DetAccount("depositor", 0)
 	tw.tracked = append(tw.tracked, tw.actors...)
-	for _, n := range []string{"pcall", "pdeleg", "pcc", "pdd", "pcd", "pmulti"} {
+	for _, n := range []string{"pcall", "pdeleg", "pcc", "pdd", "pcd", "pmulti", "pmulti2"} {
 		tw.tracked = append(tw.tracked, tw.proxy[n])
 	}
 	for _, c := range []*Chain{tw.A, tw.B} {
@@ -131,6 +139,10 @@ func newTwin(t *testing.T) *twin {
 		var err error
 		tw.bond, err = c.App.StakingKeeper.BondDenom(ctx)
 		require.NoError(t, err)
+		tw.denomIDs[tw.bond] = 0
+		for i, d := range otherDenoms {
+			tw.denomIDs[d] = i + 1
+		}
 		c.DeployCpcs(tw.bond)
 		c.RepairConsAddrIndex()
 		// a constant gas price (0 + 1) on both chains: the sponsored up-front fee enters the total supply for the duration
@@ -146,6 +158,10 @@ func newTwin(t *testing.T) *twin {
 		}
 		for _, n := range []string{"px", "pstatic"} {
 			c.Fund(tw.proxy[n].GetCosmosAddress(), tw.bond, e18(1))
+		}
+		c.Fund(tw.depositor.GetCosmosAddress(), tw.bond, e18(1_000_000))
+		for _, d := range otherDenoms {
+			c.Fund(tw.depositor.GetCosmosAddress(), d, new(big.Int).Exp(big.NewInt(10), big.NewInt(40), nil))
 		}
 		c.SetCode(tw.proxy["pcall"].GetEthAddress(), BuildProxy(OpCALL, tw.cpc))
 		c.SetCode(tw.proxy["pdeleg"].GetEthAddress(), BuildProxy(OpDELEGATECALL, tw.cpc))
@@ -185,8 +201,21 @@ func newTwin(t *testing.T) *twin {
 		{tw.proxy["pcall"], 2, e18(4)}, {tw.proxy["pcall"], 3, e18(4)},
 		{tw.proxy["pdeleg"], 2, e18(4)}, {tw.proxy["pdeleg"], 4, big.NewInt(1000)},
 		{tw.proxy["pdd"], 3, e18(4)},
+		{tw.proxy["pmulti2"], 0, e18(3)}, {tw.proxy["pmulti2"], 2, e18(3)},
 	}
 	tw.both(func(c *Chain) {
+		// two validators take a commission (the genesis validators take none): the delegators' share of every allocation
+		// to them - block rewards and deposits alike - is what is left
+		for _, cr := range []struct {
+			i    int
+			rate string
+		}{{1, "0.1"}, {3, "0.5"}} {
+			i, rate := cr.i, cr.rate
+			v, err := c.App.StakingKeeper.GetValidator(c.Ctx(), bonded[i].addr)
+			require.NoError(t, err)
+			v.Commission = stakingtypes.NewCommission(sdkmath.LegacyMustNewDecFromStr(rate), sdkmath.LegacyOneDec(), sdkmath.LegacyOneDec())
+			require.NoError(t, c.App.StakingKeeper.SetValidator(c.Ctx(), v))
+		}
 		ms := stakingkeeper.NewMsgServerImpl(c.App.StakingKeeper)
 		for _, sd := range seeds {
 			_, err := ms.Delegate(c.Ctx(), stakingtypes.NewMsgDelegate(sd.who.GetCosmosAddress().String(), bonded[sd.val].op, sdk.NewCoin(tw.bond, sdkmath.NewIntFromBigInt(sd.amt))))
@@ -195,7 +224,27 @@ func newTwin(t *testing.T) *twin {
 		c.RunBlock(nil)
 	})
 	tw.accrue()
+	// rewards in further denominations from the start: V0 (actor0, actor1, pmulti2) gets the one sorting before the bond
+	// denom, V2 (pcall, pdeleg, pmulti2) both, V1 (actor0, actor2; 10% commission) the one sorting after it
+	tw.deposit(bonded[0].op, sdk.NewCoins(sdk.NewCoin(otherDenoms[0], sdkmath.NewIntFromBigInt(e18(50)))))
+	tw.deposit(bonded[2].op, sdk.NewCoins(sdk.NewCoin(otherDenoms[0], sdkmath.NewInt(123456789)), sdk.NewCoin(otherDenoms[1], sdkmath.NewIntFromBigInt(e18(9)))))
+	tw.deposit(bonded[1].op, sdk.NewCoins(sdk.NewCoin(otherDenoms[1], sdkmath.NewIntFromBigInt(e18(1000)))))
+	// V4 holds the dust delegations (actor1, pdeleg: 1000 units): a deposit so large that even they earn more than the
+	// withdrawal minimum of it - in the other denomination, while their bond-denom reward stays far below the minimum
+	tw.deposit(bonded[4].op, sdk.NewCoins(sdk.NewCoin(otherDenoms[1], sdkmath.NewIntFromBigInt(new(big.Int).Exp(big.NewInt(10), big.NewInt(34), nil)))))
 	return tw
+}
+
+// deposit runs the native, permissionless MsgDepositValidatorRewardsPool on both chains (one sponsored Cosmos transaction
+// each): the validator's current rewards grow by the coins (less commission), in whatever denominations they are.
+func (tw *twin) deposit(valOp string, coins sdk.Coins) bool {
+	var codes []uint32
+	tw.both(func(c *Chain) {
+		res := c.C11SendCosmos(tw.depositor, txGas, &disttypes.MsgDepositValidatorRewardsPool{Depositor: tw.depositor.GetCosmosAddress().String(), ValidatorAddress: valOp, Amount: coins})
+		codes = append(codes, res.Code)
+	})
+	require.Equal(tw.t, codes[0], codes[1], "the same deposit had different outcomes on the twin chains")
+	return codes[0] == 0
 }
 
 func (tw *twin) both(f func(c *Chain)) { f(tw.A); f(tw.B) }
@@ -277,7 +326,15 @@ func (tw *twin) acctAt(c *Chain, ctx sdk.Context, a sdk.AccAddress, at time.Time
 			fmt.Fprintf(&rest, "R:%s:%s:%s;", r.ValidatorSrcAddress, r.ValidatorDstAddress, es.String())
 		}
 	}
-	fmt.Fprintf(&sb, "bal=%s;%s", bal, rest.String())
+	// balances in the other denominations (rewards are paid out in every denomination of the validator's pool)
+	var others []string
+	for _, cn := range c.App.BankKeeper.GetAllBalances(ctx, a) {
+		if cn.Denom != tw.bond {
+			others = append(others, cn.String())
+		}
+	}
+	sort.Strings(others)
+	fmt.Fprintf(&sb, "bal=%s;other=%s;%s", bal, strings.Join(others, ","), rest.String())
 	return sb.String()
 }
 
@@ -336,10 +393,73 @@ func (tw *twin) projection(c *Chain) (string, map[string]string) {
 
 // ------------------------------------------------------------------ events and logs
 
+// czs is a coin list as the Coq terms carry it: (number of the denomination, amount), in the order given
+type cz struct {
+	denom int
+	amt   *big.Int
+}
+type czs []cz
+
+func (l czs) coq() string {
+	var out []string
+	for _, x := range l {
+		out = append(out, fmt.Sprintf("(%s, %s)", CqZi(int64(x.denom)), CqZ(x.amt)))
+	}
+	return CqList(out)
+}
+
+// bondAmount is the amount of the bond denom in the list (0 if absent)
+func (l czs) bondAmount() *big.Int {
+	for _, x := range l {
+		if x.denom == 0 {
+			return x.amt
+		}
+	}
+	return big.NewInt(0)
+}
+
+func (tw *twin) denomID(d string) int {
+	id, ok := tw.denomIDs[d]
+	if !ok {
+		id = len(tw.denomIDs)
+		tw.denomIDs[d] = id
+	}
+	return id
+}
+
+var coinRe = regexp.MustCompile(`^([0-9]+)([a-zA-Z][a-zA-Z0-9/:._-]{2,127})$`)
+
+// parseAmount reads the `amount` attribute of a module event, written down here from the format of sdk.Coins.String()
+// ("<n><denom>" joined by commas; empty = no coins), not with the SDK's parser the precompile uses.
+func (tw *twin) parseAmount(s string) (czs, bool) {
+	var out czs
+	if strings.TrimSpace(s) == "" {
+		return out, true
+	}
+	for _, part := range strings.Split(s, ",") {
+		m := coinRe.FindStringSubmatch(strings.TrimSpace(part))
+		if m == nil {
+			return nil, false
+		}
+		n, _ := new(big.Int).SetString(m[1], 10)
+		out = append(out, cz{tw.denomID(m[2]), n})
+	}
+	return out, true
+}
+
+// truncated DecCoins (what the distribution queriers answer) as a coin list
+func (tw *twin) decCoins(dc sdk.DecCoins) czs {
+	var out czs
+	for _, x := range dc {
+		out = append(out, cz{tw.denomID(x.Denom), x.Amount.TruncateInt().BigInt()})
+	}
+	return out
+}
+
 type nevent struct {
 	typ           string // delegate, unbond, redelegate, withdraw_rewards, other
 	val, del, dst []byte
-	amt           *big.Int
+	amt           czs // every denomination the event's amount attribute carries
 }
 
 func (tw *twin) valBytes(c *Chain, s string) []byte {
@@ -355,12 +475,15 @@ func (tw *twin) valBytes(c *Chain, s string) []byte {
 func (tw *twin) parseEvent(c *Chain, ev abci.Event, exact bool) nevent {
 	at := EventAttrs(ev)
 	n := len(ev.Attributes)
-	amt := func() *big.Int {
-		coins, err := sdk.ParseCoinsNormalized(at[sdk.AttributeKeyAmount])
-		if err != nil {
-			return big.NewInt(0)
+	amt := func() czs {
+		l, ok := tw.parseAmount(at[sdk.AttributeKeyAmount])
+		if !ok && tw.side != nil {
+			tw.side.Hit("C11/staking/native-hypothesis-violated/event-amount-not-a-coin-list", fmt.Sprintf("%s event with amount %q", ev.Type, at[sdk.AttributeKeyAmount]), nil)
 		}
-		return coins.AmountOf(tw.bond).BigInt()
+		if len(l) > 1 && tw.side != nil {
+			tw.side.Count(fmt.Sprintf("event:%s:denominations=%d", ev.Type, len(l)))
+		}
+		return l
 	}
 	del := func() []byte {
 		a, err := sdk.AccAddressFromBech32(at[stakingtypes.AttributeKeyDelegator])
@@ -393,13 +516,13 @@ func (tw *twin) parseEvent(c *Chain, ev abci.Event, exact bool) nevent {
 func (e nevent) coq() string {
 	switch e.typ {
 	case "delegate":
-		return fmt.Sprintf("EvDelegate %s %s %s", zOf(e.val), zOf(e.del), CqZ(e.amt))
+		return fmt.Sprintf("EvDelegate %s %s %s", zOf(e.val), zOf(e.del), e.amt.coq())
 	case "unbond":
-		return fmt.Sprintf("EvUnbond %s %s %s", zOf(e.val), zOf(e.del), CqZ(e.amt))
+		return fmt.Sprintf("EvUnbond %s %s %s", zOf(e.val), zOf(e.del), e.amt.coq())
 	case "redelegate":
-		return fmt.Sprintf("EvRedelegate %s %s %s", zOf(e.val), zOf(e.dst), CqZ(e.amt))
+		return fmt.Sprintf("EvRedelegate %s %s %s", zOf(e.val), zOf(e.dst), e.amt.coq())
 	case "withdraw_rewards":
-		return fmt.Sprintf("EvWithdrawRewards %s %s %s", zOf(e.val), zOf(e.del), CqZ(e.amt))
+		return fmt.Sprintf("EvWithdrawRewards %s %s %s", zOf(e.val), zOf(e.del), e.amt.coq())
 	}
 	return "EvOther"
 }
@@ -434,21 +557,28 @@ func (tw *twin) decodeLogs(logs []*ethtypes.Log) (out []elog, foreign int) {
 }
 
 // expectedLogs is the property text: Delegate / Undelegate / WithdrawReward logs matching exactly the module events
-// (positive amounts; a redelegation is an undelegation from the source plus a delegation to the destination).
+// (positive amounts; a redelegation is an undelegation from the source plus a delegation to the destination).  The
+// logs' one uint256 is an amount of the staking coin: of an event that carries several denominations (rewards paid out of
+// a pool that holds more than the bond denom) the log repeats the bond denom's amount, and an event without a positive
+// bond-denom amount has no log.
 func expectedLogs(evs []nevent, caller []byte) (out []elog) {
 	for _, e := range evs {
-		if e.typ == "other" || e.amt.Sign() <= 0 {
+		if e.typ == "other" {
+			continue
+		}
+		a := e.amt.bondAmount()
+		if a.Sign() <= 0 {
 			continue
 		}
 		switch e.typ {
 		case "delegate":
-			out = append(out, elog{"Delegate", e.del, e.val, e.amt})
+			out = append(out, elog{"Delegate", e.del, e.val, a})
 		case "unbond":
-			out = append(out, elog{"Undelegate", e.del, e.val, e.amt})
+			out = append(out, elog{"Undelegate", e.del, e.val, a})
 		case "redelegate":
-			out = append(out, elog{"Undelegate", caller, e.val, e.amt}, elog{"Delegate", caller, e.dst, e.amt})
+			out = append(out, elog{"Undelegate", caller, e.val, a}, elog{"Delegate", caller, e.dst, a})
 		case "withdraw_rewards":
-			out = append(out, elog{"WithdrawReward", e.del, e.val, e.amt})
+			out = append(out, elog{"WithdrawReward", e.del, e.val, a})
 		}
 	}
 	return
@@ -773,10 +903,15 @@ func (tw *twin) stakingTD(m cpcabi.StakingMessage, chain *big.Int) apitypes.Type
 }
 
 func (tw *twin) genOp(r *Rng, caller *itutiltypes.TestAccount) cpcOp {
+	return tw.genOpKind(r, caller, r.Intn(100))
+}
+
+// genOpKind: kind in [0,100) selects the method (0.. delegate, 18.. undelegate, 32.. redelegate, 44.. withdrawReward,
+// 54.. withdrawRewards, 62.. transfer, 72.. delegateByActionMessage, 88.. withdrawRewardsByMessage)
+func (tw *twin) genOpKind(r *Rng, caller *itutiltypes.TestAccount, kind int) cpcOp {
 	me := caller.GetEthAddress()
 	meAcc := caller.GetCosmosAddress()
 	B := tw.B
-	kind := r.Intn(100)
 	switch {
 	case kind < 18:
 		v, vc := tw.pickVal(r)
@@ -1096,13 +1231,28 @@ func TestDriverStaking(t *testing.T) {
 			// proposer can be resolved: point the index back (both chains alike)
 			tw.both(func(c *Chain) { c.RepairConsAddrIndex() })
 			switch {
-			case k < 12:
+			case k < 10:
 				tw.accrue()
 				side.Count("step:accrue")
-			case k < 18:
+			case k < 15:
 				tw.both(func(c *Chain) { c.Time = c.Time.Add(45 * time.Second); c.RunBlock(nil) })
 				side.Count("step:timejump")
-			case k < 32: // a native message on both chains
+			case k < 22: // anybody tops up a validator's rewards pool, in any denominations (native, both chains)
+				b := tw.bondedVals()
+				val := b[r.Intn(len(b))]
+				var coins sdk.Coins
+				for _, d := range append([]string{tw.bond}, otherDenoms...) {
+					if r.Chance(45) {
+						amt := []*big.Int{big.NewInt(1), big.NewInt(1000), big.NewInt(999_999_999), e18(1), e18(40), new(big.Int).Exp(big.NewInt(10), big.NewInt(27), nil), new(big.Int).Exp(big.NewInt(10), big.NewInt(33), nil)}[r.Intn(7)]
+						coins = coins.Add(sdk.NewCoin(d, sdkmath.NewIntFromBigInt(amt)))
+					}
+				}
+				if coins.Empty() {
+					coins = sdk.NewCoins(sdk.NewCoin(otherDenoms[r.Intn(len(otherDenoms))], sdkmath.NewIntFromBigInt(e18(3))))
+				}
+				ok := tw.deposit(val.op, coins)
+				side.Count(fmt.Sprintf("step:deposit-into-rewards-pool:denominations=%d:ok=%v", len(coins), ok))
+			case k < 34: // a native message on both chains
 				a := tw.tracked[r.Intn(len(tw.tracked))]
 				nk := r.Intn(4)
 				v, _ := tw.pickVal(r)
@@ -1155,7 +1305,7 @@ func TestDriverStaking(t *testing.T) {
 				if codes[0] != codes[1] {
 					side.Hit("C11/staking/twin-harness-native-message-diverged", "the same native message had different outcomes on the twin chains", nil)
 				}
-			case k < 88:
+			case k < 82:
 				tw.cpcStep(r, side, cases, &idx, seq, step)
 			default: // several precompile calls in one transaction
 				tw.multiStep(r, side, cases, &idx, seq, step)
@@ -1166,7 +1316,7 @@ func TestDriverStaking(t *testing.T) {
 			// twins must agree after every step
 			pa, ma := tw.projection(tw.A)
 			pb, mb := tw.projection(tw.B)
-			if pa != pb && k < 32 {
+			if pa != pb && k < 34 {
 				var diff []string
 				for key, v := range ma {
 					if mb[key] != v {
@@ -1237,7 +1387,7 @@ func (tw *twin) cpcStep(r *Rng, side *Sidecar, cases *CasesFile, idx *int, seq, 
 	if rwErr == nil {
 		for _, x := range rw.Rewards {
 			bz := tw.valBytes(tw.B, x.ValidatorAddress)
-			rwList = append(rwList, fmt.Sprintf("(%s, %s)", zOf(bz), CqZ(x.Reward.AmountOf(tw.bond).TruncateInt().BigInt())))
+			rwList = append(rwList, fmt.Sprintf("(%s, %s)", zOf(bz), tw.decCoins(x.Reward).coq()))
 		}
 		totalZero = rw.Total.IsZero()
 	}
@@ -1401,94 +1551,142 @@ func (tw *twin) cpcStep(r *Rng, side *Sidecar, cases *CasesFile, idx *int, seq, 
 	*idx++
 }
 
+// ------------------------------------------------------------------ views against native queries
+
+// qres is a native query's answer: a number or coins, "no delegation" (gRPC NotFound of the staking querier /
+// ErrNoDelegation), or another error
+type qres struct {
+	class string // QOk, QNoDelegation, QErr
+	z     *big.Int
+	coins czs // distribution queriers: the truncated answer in every denomination (z = its bond-denom amount)
+}
+
+func (x qres) coq() string {
+	if x.class == "QOk" {
+		return "(QOk " + CqZ(x.z) + ")"
+	}
+	return x.class
+}
+
+func (x qres) coqCoins() string {
+	switch x.class {
+	case "QOk":
+		return "(QcOk " + x.coins.coq() + ")"
+	case "QNoDelegation":
+		return "QcNoDelegation"
+	}
+	return "QcErr"
+}
+
+// nativeViews is what the native queriers of chain c say on ctx about account acc and validator v
+type nativeViews struct {
+	delTokens, bondedTotal, reward, rewardsTotal qres
+	bal                                          *big.Int
+	vals                                         []string // validators of acc's delegations
+}
+
+func (tw *twin) nativeViewsOf(c *Chain, q sdk.Context, acc sdk.AccAddress, v common.Address) nativeViews {
+	nv := nativeViews{delTokens: qres{class: "QErr"}, bondedTotal: qres{class: "QErr"}, reward: qres{class: "QErr"}, rewardsTotal: qres{class: "QErr"}}
+	sq := stakingkeeper.NewQuerier(c.App.StakingKeeper)
+	if dr, err := sq.Delegation(q, &stakingtypes.QueryDelegationRequest{DelegatorAddr: acc.String(), ValidatorAddr: tw.valStr(c, v)}); err == nil {
+		nv.delTokens = qres{class: "QOk", z: dr.DelegationResponse.Balance.Amount.BigInt()}
+	} else if status.Code(err) == codes.NotFound {
+		nv.delTokens.class = "QNoDelegation"
+	}
+	if dd, err := sq.DelegatorDelegations(q, &stakingtypes.QueryDelegatorDelegationsRequest{DelegatorAddr: acc.String(), Pagination: &query.PageRequest{Limit: 1000}}); err == nil {
+		nv.bondedTotal = qres{class: "QOk", z: big.NewInt(0)}
+		for _, x := range dd.DelegationResponses {
+			nv.bondedTotal.z.Add(nv.bondedTotal.z, x.Balance.Amount.BigInt())
+			nv.vals = append(nv.vals, common.BytesToAddress(tw.valBytes(c, x.Delegation.ValidatorAddress)).Hex())
+		}
+	}
+	{
+		cc, _ := q.CacheContext() // the querier writes (ends the reward period)
+		if rr, err := distkeeper.NewQuerier(c.App.DistrKeeper).DelegationRewards(cc, &disttypes.QueryDelegationRewardsRequest{DelegatorAddress: acc.String(), ValidatorAddress: tw.valStr(c, v)}); err == nil {
+			l := tw.decCoins(rr.Rewards)
+			nv.reward = qres{class: "QOk", z: l.bondAmount(), coins: l}
+		} else if errors.Is(err, stakingtypes.ErrNoDelegation) {
+			nv.reward.class = "QNoDelegation"
+		}
+	}
+	if rr, err := rewardsOf(c, q, acc); err == nil {
+		l := tw.decCoins(rr.Total)
+		nv.rewardsTotal = qres{class: "QOk", z: l.bondAmount(), coins: l}
+		if len(l) > 1 && tw.side != nil {
+			tw.side.Count("view:pending-rewards-in-several-denominations")
+		}
+	}
+	nv.bal = c.App.BankKeeper.GetBalance(q, acc, tw.bond).Amount.BigInt()
+	return nv
+}
+
+// the property text: the view reports the native query's number (of the staking coin); where the native side has no
+// number ("no delegation") delegationOf / rewardOf report 0; where the native query fails there is nothing to report (nil)
+func zeroIfNone(x qres) *big.Int {
+	switch x.class {
+	case "QOk":
+		return x.z
+	case "QNoDelegation":
+		return big.NewInt(0)
+	}
+	return nil
+}
+
+func strictQ(x qres) *big.Int {
+	if x.class == "QOk" {
+		return x.z
+	}
+	return nil
+}
+
+type viewCall struct {
+	name string
+	coq  string
+	data []byte
+	want *big.Int // nil: the native query fails, the view must fail
+}
+
+func (tw *twin) viewCalls(nv nativeViews, me, v common.Address) []viewCall {
+	var balPlus *big.Int
+	if rt := strictQ(nv.rewardsTotal); rt != nil {
+		balPlus = new(big.Int).Add(nv.bal, rt)
+	}
+	vz := zOf(v.Bytes())
+	return []viewCall{
+		{"delegationOf", fmt.Sprintf("VDelegationOf %s %s", zOf(me.Bytes()), vz), tw.pack("delegationOf", me, v), zeroIfNone(nv.delTokens)},
+		{"totalDelegationOf", fmt.Sprintf("VTotalDelegationOf %s", zOf(me.Bytes())), tw.pack("totalDelegationOf", me), strictQ(nv.bondedTotal)},
+		{"rewardOf", fmt.Sprintf("VRewardOf %s %s", zOf(me.Bytes()), vz), tw.pack("rewardOf", me, v), zeroIfNone(nv.reward)},
+		{"rewardsOf", fmt.Sprintf("VRewardsOf %s", zOf(me.Bytes())), tw.pack("rewardsOf", me), strictQ(nv.rewardsTotal)},
+		{"balanceOf", fmt.Sprintf("VBalanceOf %s", zOf(me.Bytes())), tw.pack("balanceOf", me), balPlus},
+	}
+}
+
+func (nv nativeViews) viewCaseTerm(w viewCall, got *big.Int) string {
+	obs := "None"
+	if got != nil {
+		obs = "(Some " + CqZ(got) + ")"
+	}
+	return fmt.Sprintf("(ViewCase (%s) %s %s %s %s %s %s)", w.coq, nv.delTokens.coq(), nv.bondedTotal.coq(), nv.reward.coqCoins(), nv.rewardsTotal.coqCoins(), CqZ(nv.bal), obs)
+}
+
+func strBig(x *big.Int) string {
+	if x == nil {
+		return "failure"
+	}
+	return x.String()
+}
+
 // viewStep calls every view on A (directly and through a STATICCALL proxy) and compares with the native gRPC queriers on
 // the same chain and state (that A's state equals B's is the twin comparison's business).
 func (tw *twin) viewStep(r *Rng, side *Sidecar, cases *CasesFile, idx *int) {
 	t := tw.t
 	a := tw.tracked[r.Intn(len(tw.tracked))]
-	v, _ := tw.pickVal(r)
+	v, _ := tw.pickOwnVal(r, a.GetCosmosAddress())
 	acc := a.GetCosmosAddress()
-	B := tw.A // the chain whose native queriers are asked
-	q := B.QueryCtx()
-	// native queries: a number, "no delegation" (gRPC NotFound of the staking querier / ErrNoDelegation), or another error
-	type qres struct {
-		class string // QOk, QNoDelegation, QErr
-		z     *big.Int
-	}
-	coqQ := func(x qres) string {
-		if x.class == "QOk" {
-			return "(QOk " + CqZ(x.z) + ")"
-		}
-		return x.class
-	}
-	sq := stakingkeeper.NewQuerier(B.App.StakingKeeper)
-	delTokens := qres{class: "QErr"}
-	if dr, err := sq.Delegation(q, &stakingtypes.QueryDelegationRequest{DelegatorAddr: acc.String(), ValidatorAddr: tw.valStr(B, v)}); err == nil {
-		delTokens = qres{"QOk", dr.DelegationResponse.Balance.Amount.BigInt()}
-	} else if status.Code(err) == codes.NotFound {
-		delTokens.class = "QNoDelegation"
-	}
-	bondedTotal := qres{class: "QErr"}
-	var nativeVals []string
-	if dd, err := sq.DelegatorDelegations(q, &stakingtypes.QueryDelegatorDelegationsRequest{DelegatorAddr: acc.String(), Pagination: &query.PageRequest{Limit: 1000}}); err == nil {
-		bondedTotal = qres{"QOk", big.NewInt(0)}
-		for _, x := range dd.DelegationResponses {
-			bondedTotal.z.Add(bondedTotal.z, x.Balance.Amount.BigInt())
-			nativeVals = append(nativeVals, common.BytesToAddress(tw.valBytes(B, x.Delegation.ValidatorAddress)).Hex())
-		}
-	}
-	reward := qres{class: "QErr"}
-	{
-		cc, _ := q.CacheContext()
-		if rr, err := distkeeper.NewQuerier(B.App.DistrKeeper).DelegationRewards(cc, &disttypes.QueryDelegationRewardsRequest{DelegatorAddress: acc.String(), ValidatorAddress: tw.valStr(B, v)}); err == nil {
-			reward = qres{"QOk", rr.Rewards.AmountOf(tw.bond).TruncateInt().BigInt()}
-		} else if errors.Is(err, stakingtypes.ErrNoDelegation) {
-			reward.class = "QNoDelegation"
-		}
-	}
-	rewardsTotal := qres{class: "QErr"}
-	if rr, err := rewardsOf(B, q, acc); err == nil {
-		rewardsTotal = qres{"QOk", rr.Total.AmountOf(tw.bond).TruncateInt().BigInt()}
-	}
-	bal := B.App.BankKeeper.GetBalance(q, acc, tw.bond).Amount.BigInt()
-	// the property text: the view reports the native query's number; where the native side has no number ("no
-	// delegation") delegationOf / rewardOf report 0; where the native query fails there is nothing to report (nil)
-	zeroIfNone := func(x qres) *big.Int {
-		switch x.class {
-		case "QOk":
-			return x.z
-		case "QNoDelegation":
-			return big.NewInt(0)
-		}
-		return nil
-	}
-	strict := func(x qres) *big.Int {
-		if x.class == "QOk" {
-			return x.z
-		}
-		return nil
-	}
-	var balPlus *big.Int
-	if rt := strict(rewardsTotal); rt != nil {
-		balPlus = new(big.Int).Add(bal, rt)
-	}
-
+	nv := tw.nativeViewsOf(tw.A, tw.A.QueryCtx(), acc, v)
 	from := tw.actors[0].GetEthAddress()
-	type vw struct {
-		name string
-		coq  string
-		data []byte
-		want *big.Int // nil: the native query fails, the view must fail
-	}
-	me, vz := a.GetEthAddress(), zOf(v.Bytes())
-	views := []vw{
-		{"delegationOf", fmt.Sprintf("VDelegationOf %s %s", zOf(me.Bytes()), vz), tw.pack("delegationOf", me, v), zeroIfNone(delTokens)},
-		{"totalDelegationOf", fmt.Sprintf("VTotalDelegationOf %s", zOf(me.Bytes())), tw.pack("totalDelegationOf", me), strict(bondedTotal)},
-		{"rewardOf", fmt.Sprintf("VRewardOf %s %s", zOf(me.Bytes()), vz), tw.pack("rewardOf", me, v), zeroIfNone(reward)},
-		{"rewardsOf", fmt.Sprintf("VRewardsOf %s", zOf(me.Bytes())), tw.pack("rewardsOf", me), strict(rewardsTotal)},
-		{"balanceOf", fmt.Sprintf("VBalanceOf %s", zOf(me.Bytes())), tw.pack("balanceOf", me), balPlus},
-	}
-	for _, w := range views {
+	me := a.GetEthAddress()
+	for _, w := range tw.viewCalls(nv, me, v) {
 		for _, via := range []string{"direct", "STATICCALL"} {
 			to := tw.cpc
 			if via == "STATICCALL" {
@@ -1499,21 +1697,11 @@ func (tw *twin) viewStep(r *Rng, side *Sidecar, cases *CasesFile, idx *int) {
 			if ok && len(ret) == 32 {
 				got = new(big.Int).SetBytes(ret)
 			}
-			str := func(x *big.Int) string {
-				if x == nil {
-					return "failure"
-				}
-				return x.String()
-			}
-			desc := map[string]interface{}{"kind": "view", "view": w.name, "via": via, "account": me.Hex(), "validator": v.Hex(), "observed": str(got), "native": str(w.want)}
+			desc := map[string]interface{}{"kind": "view", "view": w.name, "via": via, "account": me.Hex(), "validator": v.Hex(), "observed": strBig(got), "native": strBig(w.want)}
 			if (got == nil) != (w.want == nil) || got != nil && got.Cmp(w.want) != 0 {
-				side.Hit("C11/staking/view-differs-from-native-query/"+w.name, fmt.Sprintf("%s via %s returned %s, the native query gives %s", w.name, via, str(got), str(w.want)), desc)
+				side.Hit("C11/staking/view-differs-from-native-query/"+w.name, fmt.Sprintf("%s via %s returned %s, the native query gives %s", w.name, via, strBig(got), strBig(w.want)), desc)
 			}
-			obs := "None"
-			if got != nil {
-				obs = "(Some " + CqZ(got) + ")"
-			}
-			cases.Add(fmt.Sprintf("KView (ViewCase (%s) %s %s %s %s %s %s)", w.coq, coqQ(delTokens), coqQ(bondedTotal), coqQ(reward), coqQ(rewardsTotal), CqZ(bal), obs))
+			cases.Add("KView " + nv.viewCaseTerm(w, got))
 			side.Count("view:" + w.name + ":" + via)
 			if w.want == nil {
 				side.Count("view:" + w.name + ":native-query-fails")
@@ -1532,6 +1720,7 @@ func (tw *twin) viewStep(r *Rng, side *Sidecar, cases *CasesFile, idx *int) {
 			got = append(got, x.Hex())
 		}
 	}
+	nativeVals := append([]string{}, nv.vals...)
 	sort.Strings(got)
 	sort.Strings(nativeVals)
 	if !ok || strings.Join(got, ",") != strings.Join(nativeVals, ",") {
